@@ -140,7 +140,8 @@ def gen_conc() -> str:
     for i, st in enumerate(body):
         if isinstance(st, ast.If) and _u(st.test) == "self._is_mutex_blocked(stage)":
             idx["mutex_fast"] = i
-        elif isinstance(st, ast.If) and _u(st.test) == "stage.deferred_choice_group and self._is_deferred_choice_claimed(stage)":
+        elif isinstance(st, ast.If) and isinstance(st.test, ast.BoolOp) and isinstance(st.test.op, ast.And) and len(st.test.values) == 3 \
+                and _u(st.test.values[0]) == "stage.deferred_choice_group" and _u(st.test.values[2]) == "self._is_deferred_choice_claimed(stage)":
             idx["choice_fast"] = i
         elif isinstance(st, ast.If) and _u(st.test) == "stage.status == WorkflowStatus.RUNNING" and "claim_expected_phase" in _u(st):
             idx["phase"] = i
@@ -172,6 +173,10 @@ def gen_conc() -> str:
     if not _ends_with_return(body[idx["mutex_fast"]].body):
         _fail(H, body[idx["mutex_fast"]], "mutex fast path does not return")
     _cancel_self_txn(H, body[idx["choice_fast"]], "deferred-choice fast path")
+    # the middle conjunct: the sibling scan (and the self-cancel) only for a stage with this status; a RUNNING claimant that is
+    # re-planned after a crash skips it
+    cf_guard = Tr(H, {"stage.status": ("st", "status")}).term(body[idx["choice_fast"]].test.values[1])
+    cf_src = _u(body[idx["choice_fast"]].test.values[1])
     if not _ends_with_return(body[idx["choice_fast"]].body):
         _fail(H, body[idx["choice_fast"]], "deferred-choice fast path does not return")
 
@@ -284,6 +289,8 @@ def gen_conc() -> str:
 
     out.append(f"(* {H}: _start_if_ready *)")
     out.append("Definition fast_paths_before_claim : bool := true.")
+    out.append(f"(* {H}:{body[idx['choice_fast']].lineno} the deferred-choice fast path (sibling scan + self-cancel) runs only when `{cf_src}` *)")
+    out.append(f"Definition choice_fast_guard (st : status) : bool := {cf_guard}.")
     out.append("Definition claim_txn_is_acquire_mutex_acquire_choice_store : bool := true.   (* one `with transaction` block, this order *)")
     out.append(f"Definition claim_uses_expected_phase : bool := {'true' if uses_phase else 'false'}.")
     out.append(f"Definition claim_phase_fresh : status := {fresh_phase}.")
